@@ -39,13 +39,30 @@ func extract(path string, re *regexp.Regexp, varGroup, exprGroup int) (*cm.Expr,
 	return e, vars[0]
 }
 
+// balanced: parentheses of s are balanced and never close below zero (so an outer pair can be stripped).
+func balanced(s string) bool {
+	d := 0
+	for _, c := range s {
+		switch c {
+		case '(':
+			d++
+		case ')':
+			d--
+			if d < 0 {
+				return false
+			}
+		}
+	}
+	return d == 0
+}
+
 func main() {
 	r := ev.Start("C07", "exploration")
 	sol, solVar := extract(filepath.Join(r.Repo, "ethereum/contracts/Messages.sol"),
 		regexp.MustCompile(`function\s+quorum\s*\(\s*uint(?:256)?\s+(\w+)\s*\)[^{]*\{\s*return\s+([^;]+);`), 1, 2)
 	ralSrc := filepath.Join(r.Repo, "alephium/contracts/governance.ral")
 	// let guardianSize = ...; let quorumSize = <expr over guardianSize>; assert!(quorumSize <= signatureSize
-	ral, ralVar := extract(ralSrc, regexp.MustCompile(`let\s+(guardianSize)\s*=[^\n]*\n(?:[^\n]*\n){0,6}?\s*let\s+quorumSize\s*=\s*([^\n]+)\n\s*assert!\(quorumSize\s*<=\s*signatureSize`), 1, 2)
+	ral, ralVar := extract(ralSrc, regexp.MustCompile(`let\s+(guardianSize)\s*=[^\n]*\n(?:[^\n]*\n){0,6}?\s*let\s+quorumSize\s*=\s*([^\n]+)\n`), 1, 2)
 	r.Set("solidity_formula", sol.String())
 	r.Set("ralph_formula", ral.String())
 
@@ -133,49 +150,85 @@ func main() {
 		cond = regexp.MustCompile(`quorum\(\s*guardianSet\.keys\.length\s*\)`).ReplaceAllString(cond, "("+strings.ReplaceAll(sol.String(), solVar, "n")+")")
 		cond = strings.ReplaceAll(cond, "guardianSet.keys.length", "n")
 		ralSrcB, _ := os.ReadFile(ralSrc)
-		am := regexp.MustCompile(`assert!\(\s*([\w \*\+\-/\(\)]+?)\s*(<=|<|>=|>)\s*([\w \*\+\-/\(\)]+?)\s*,\s*ErrorCodes\.InvalidSignatureSize\)`).FindAllStringSubmatch(string(ralSrcB), -1)
+		am := regexp.MustCompile(`assert!\(\s*([^\n,]+?)\s*,\s*ErrorCodes\.InvalidSignatureSize\)`).FindAllStringSubmatch(string(ralSrcB), -1)
 		if len(am) != 1 {
 			ev.Broken("governance.ral: the signature-size assertion matched %d times, want exactly 1", len(am))
 		}
-		// the Ralph assertion states what is ACCEPTED; negate it to get the rejection gate
-		neg := map[string]string{"<=": ">", "<": ">=", ">=": "<", ">": "<="}
-		rcond := am[0][1] + " " + neg[am[0][2]] + " " + am[0][3]
+		// the Ralph assertion states what is ACCEPTED (a conjunction of comparisons); the Solidity statement what is
+		// REJECTED (a disjunction of comparisons)
+		rcond := am[0][1]
 		rcond = strings.ReplaceAll(rcond, "quorumSize", "("+strings.ReplaceAll(ral.String(), ralVar, "n")+")")
 		rcond = strings.ReplaceAll(rcond, "signatureSize", "s")
 		rcond = strings.ReplaceAll(rcond, "guardianSize", "n")
-		for name, c := range map[string]string{"Messages.sol verifyVM": cond, "governance.ral parseAndVerifyVAA": rcond} {
-			var op string
-			for _, o := range []string{"<=", ">=", "<", ">"} {
-				if strings.Contains(c, o) {
-					op = o
-					break
+		type cmp struct {
+			lhs, rhs *cm.Expr
+			op       string
+		}
+		parse := func(name, c, sep string) []cmp {
+			var out []cmp
+			for _, part := range strings.Split(c, sep) {
+				part = strings.TrimSpace(part)
+				for strings.HasPrefix(part, "(") && strings.HasSuffix(part, ")") && balanced(part[1:len(part)-1]) {
+					part = strings.TrimSpace(part[1 : len(part)-1])
 				}
+				var op string
+				for _, o := range []string{"<=", ">=", "==", "!=", "<", ">"} {
+					if strings.Contains(part, o) {
+						op = o
+						break
+					}
+				}
+				ps := strings.SplitN(part, op, 2)
+				if op == "" || len(ps) != 2 {
+					ev.Broken("%s: gate %q outside the recognised subset", name, c)
+				}
+				lhs, e1 := cm.ParseExpr(ps[0])
+				rhs, e2 := cm.ParseExpr(ps[1])
+				if e1 != nil || e2 != nil {
+					ev.Broken("%s: gate %q outside the recognised subset: %v %v", name, c, e1, e2)
+				}
+				out = append(out, cmp{lhs, rhs, op})
 			}
-			parts := strings.SplitN(c, op, 2)
-			if op == "" || len(parts) != 2 {
-				ev.Broken("%s: gate %q outside the recognised subset", name, c)
+			return out
+		}
+		holds := func(name string, c cmp, env map[string]int64) bool {
+			a, ea := c.lhs.Eval(env)
+			b, eb := c.rhs.Eval(env)
+			if ea != nil || eb != nil {
+				ev.Broken("%s: gate does not evaluate: %v %v", name, ea, eb)
 			}
-			lhs, e1 := cm.ParseExpr(parts[0])
-			rhs, e2 := cm.ParseExpr(parts[1])
-			if e1 != nil || e2 != nil {
-				ev.Broken("%s: gate %q outside the recognised subset: %v %v", name, c, e1, e2)
-			}
-			r.Set("gate_"+strings.Fields(name)[0], c)
+			return map[string]bool{"<": a < b, "<=": a <= b, ">": a > b, ">=": a >= b, "==": a == b, "!=": a != b}[c.op]
+		}
+		type gate struct {
+			name, text string
+			parts      []cmp
+			accepts    bool // parts state what is accepted (all must hold); otherwise what is rejected (any)
+		}
+		gates := []gate{{"Messages.sol verifyVM", cond, parse("Messages.sol verifyVM", cond, "||"), false},
+			{"governance.ral parseAndVerifyVAA", rcond, parse("governance.ral parseAndVerifyVAA", rcond, "&&"), true}}
+		for _, g := range gates {
+			r.Set("gate_"+strings.Fields(g.name)[0], g.text)
 			bad := 0
 			for n := 1; n <= 255; n++ {
 				for sg := 0; sg <= n; sg++ {
 					env := map[string]int64{"n": int64(n), "s": int64(sg)}
-					a, ea := lhs.Eval(env)
-					b, eb := rhs.Eval(env)
-					if ea != nil || eb != nil {
-						ev.Broken("%s: gate does not evaluate: %v %v", name, ea, eb)
+					rejected := g.accepts
+					if g.accepts {
+						all := true
+						for _, c := range g.parts {
+							all = all && holds(g.name, c, env)
+						}
+						rejected = !all
+					} else {
+						for _, c := range g.parts {
+							rejected = rejected || holds(g.name, c, env)
+						}
 					}
-					rejected := map[string]bool{"<": a < b, "<=": a <= b, ">": a > b, ">=": a >= b}[op]
 					want := sg < 2*n/3+1
 					r.Add("gate_evaluations", 1)
 					if rejected != want && bad < 3 {
 						bad++
-						r.Violation("quorum gate: "+name+" does not reject for lack of quorum exactly when fewer than floor(2n/3)+1 signatures are present", fmt.Sprintf("gate %q: n=%d signatures=%d rejected=%v want %v", c, n, sg, rejected, want), map[string]interface{}{"gate": c, "n": n, "signatures": sg})
+						r.Violation("quorum gate: "+g.name+" does not reject for lack of quorum exactly when fewer than floor(2n/3)+1 signatures are present", fmt.Sprintf("gate %q: n=%d signatures=%d rejected=%v want %v", g.text, n, sg, rejected, want), map[string]interface{}{"gate": g.text, "n": n, "signatures": sg})
 					}
 				}
 			}
